@@ -10,8 +10,40 @@ GLOBAL_ASSUMPTIONS = [
 ]
 
 PROPERTIES = {
+    "C01": {
+        "units": ["draw_to_term", "bar_draw"],
+        "level": "proof",
+        "explanation": "draw_to_term verified against the ghost terminal: after a completed draw every cell from the top of the previous frame on shows exactly the lines handed in (text lines, then bars, each wrapped at the terminal width) or is blank, nothing above is touched, the cursor rests in the pending-wrap column of the last row (so later output starts on a fresh line), a cleared frame leaves nothing; BarState::{draw, println, finish_using_style, update_estimate_and_draw, tick, drop} verified to hand draw_to_term exactly [printed texts ++ current rendering] (or nothing once cleared) and to leave terminal, row count and draw state untouched when a draw is skipped.",
+        "level_text": "Deductive proof (Verus) for all line lists, widths, heights, previous frames and bar states; the history-level statement follows by induction from the per-call contracts (each call re-establishes the layout precondition of the next).",
+        "level_note": "Assumed: the ghost terminal model as TermLike's contract, format_state's output (Bar lines, size bounds) as a stubbed callee verified in its own unit, one-column cells. Known finding C01-first-line-advance (zero-width first line painted from the pending-wrap column) is excluded from the content clause and listed. ProgressBar::suspend's closure is not modelled; cursor-moving mode (set_move_cursor) is covered by the frame clause only.",
+        "assumptions": ["R2 sequential; R10 one model terminal"],
+    },
+    "C04": {
+        "units": ["bar_draw", "c07_position"],
+        "level": "proof",
+        "explanation": "BarState::finish_using_style verified: status finished, position == length for the finish variants and unchanged for the abandon variants, message set when supplied, and one forced draw whose frame is the rendering of the final state (nothing for the clearing variant) reaches draw_to_term regardless of the limiter (drawable grants every forced request on a visible target without touching the limiter); dropping a finished bar performs no draw; dropping an unfinished one finishes it with on_finish.",
+        "level_text": "Deductive proof (Verus) over all bar states, limiter states and finish variants.",
+        "level_note": "Assumed: ghost terminal, format_state stub, MultiState side of a member bar (MultiHandle stub; the MultiProgress clause of C04 is decided with the MultiState unit). ProgressBarIter::next finishing on exhaustion is covered by C17's unit.",
+        "assumptions": ["R2 sequential; Drop::drop extracted as drop_impl (R9)"],
+    },
+    "C06": {
+        "units": ["bar_draw", "c07_position"],
+        "level": "proof",
+        "explanation": "Every draw-path function carries the frame clause 'hidden target => the count of terminal operations is unchanged' (ProgressDrawTarget::drawable returns None for Hidden and for a Term that is not a TTY; a member of a hidden MultiProgress goes through the MultiHandle whose contract keeps the count), and the logical-state postconditions (position, length, message, prefix, finished status) never mention the target, so they are the same for hidden and visible bars.",
+        "level_text": "Deductive proof (Verus): silence as a frame condition on every function of the draw path, state equivalence by construction of the contracts.",
+        "level_note": "Assumed: a hidden MultiProgress performs no terminal operation (contract of the MultiHandle stub, discharged in the MultiState unit). Term::is_term() is the model's tty flag.",
+        "assumptions": ["ops counter of the ghost terminal counts cursor/write/clear operations; width()/height() are queries"],
+    },
+    "C18": {
+        "units": ["bar_draw", "draw_to_term"],
+        "level": "proof",
+        "explanation": "Every terminal operation of the ghost terminal may return Err at any call; all functions of the draw path (draw_to_term, Drawable::{draw, clear}, BarState::{draw, println, finish_using_style, update_estimate_and_draw, tick, drop}, ProgressBar::{set_tab_width, force_draw}) are verified panic-free under that model (an unwrap on a draw result cannot be discharged), keep the logical state (same postconditions on Ok and Err paths), and draw_to_term leaves the accounted row count unchanged on Err.",
+        "level_text": "Deductive proof (Verus) of panic-freedom and state preservation for every failure point and any number of failures (each operation's failure is an unconstrained Result in the model).",
+        "level_note": "Assumed: sequential semantics (lock poisoning = a panic while a guard is alive, hence panic-freedom). MultiProgress::{println, clear, suspend} are decided with the MultiState unit.",
+        "assumptions": ["R2 sequential"],
+    },
     "C05": {
-        "units": ["c05_limiters", "pb_glue"],
+        "units": ["c05_limiters", "pb_glue", "bar_draw"],
         "level": "proof",
         "explanation": "RateLimiter::{new,allow} and AtomicPosition::allow extracted from /repo/src and verified by Verus against the token-bucket step relation; window (20 + R*T + 1) and staleness bounds proved as lemmas by induction over call traces whose step relation is the conjunction of the code contracts.",
         "level_text": "Deductive proof (Verus/Z3), for every limiter state and request time, that RateLimiter::new/allow and AtomicPosition::allow as they stand in /repo/src satisfy the token-bucket step relation taken from the property text; the frame bound 20 + R*T + 1 and the staleness bound are proved once and for all as lemmas by induction over arbitrary call histories whose step relation is exactly those contracts. No bound on history length, times or counters.",
@@ -126,6 +158,9 @@ WITNESS = {
     "c15_formatters/HumanFloatCount::fmt": ["human_float"],
     "c15_formatters/HumanCount::fmt": ["human_count"],
     "c15_formatters/FormattedDuration::fmt": ["formatted_duration"],
+    "bar_draw/ProgressBar::set_tab_width": ["io_fail_bar"],
+    "bar_draw/ProgressBar::": ["io_fail_bar"],
+    "bar_draw/BarState::": ["io_fail_bar"],
     "draw_to_term/DrawState::draw_to_term#C03": ["cr_hazard", "first_line_hazard"],
     "draw_to_term/DrawState::draw_to_term": ["first_line_hazard", "cr_hazard"],
     "c14_style/ProgressStyle::tick_strings": ["style_build tick_strings"],
